@@ -14,52 +14,52 @@ ROOT = os.path.dirname(os.path.dirname(os.path.abspath(__file__)))
 CHECKS = {
  "C29": dict(ready=True, level="exploration", engine="vsim-static",
    technique="deterministic simulation: seeded serialising scheduler over the real ThreadPool.cxx (pthread interposition), history oracle + reference pool, ASan/UBSan; second variant: happens-before race detection over compiler-instrumented accesses (own __tsan_* runtime fed by the simulated synchronisation)",
-   text="Seeded schedule exploration of the real ThreadPool (1..4 workers, 0..4 tasks per client, 1..3 clients in quick; up to 16 workers and thousands of tasks in thorough): every interleaving decision, the waiter chosen by notify_one and spurious wake-ups come from one PRNG; exactly-once, wait()-completeness, destructor-drain, future-content and bounded-liveness invariants are evaluated on the sequence-numbered event history; tasks submitted with arguments must run with the values they were submitted with. A quarter of the runs use a build whose every memory access (compiler instrumentation) is checked for a happens-before order against the simulated locks. Sampling, not proof.",
+   text="Seeded schedule exploration of the real ThreadPool (1..4 workers, 0..4 tasks per client, 1..3 clients in quick; up to 16 workers and thousands of tasks in thorough): every interleaving decision, the waiter chosen by notify_one and spurious wake-ups come from one PRNG; exactly-once, wait()-completeness, destructor-drain, future-content and bounded-liveness invariants are evaluated on the sequence-numbered event history; tasks submitted with arguments must run with the values they were submitted with; rare plan shapes: floods of more than 1024 tasks pending behind tasks that wait for the producer, pools of 33..70 workers. A quarter of the runs use a build whose every memory access (compiler instrumentation) is checked for a happens-before order against the simulated locks. Sampling, not proof.",
    note="Trusted: the simulator's model of pthread mutex/condvar/create/join semantics (POSIX, incl. spurious wake-ups and arbitrary notify_one target); libstdc++ std::thread/condition_variable/future run for real. Scheduling points exist only at intercepted calls.",
    design="§3 C29"),
  "C30": dict(ready=True, level="exploration", engine="vsim-static",
    technique="deterministic simulation: seeded scheduler + simulated process table/pipes/SIGCHLD delivery/pid recycling/allocator lock under the real ProcessManager/SignalManager (link-time --wrap, objcopy-redirected operator new/delete), verdict oracle per command, ASan/UBSan, zero/pattern auto-var-init builds",
-   text="Seeded exploration of the relative order of child exit, SIGCHLD delivery (any eligible thread), handler execution and waitpid for 1..4 (quick) / 1..16 (thorough) concurrent managers running commands that exit 0, exit k, die by a signal or fail to exec; execute()'s outcome is compared to the planned fate for every command, plus reaping/descriptor conservation, deadlock (mutexes and the allocator lock re-entered by a signal handler) and memory-error detection; pids are recycled across the commands of a history in a third of the runs; children can be stopped and continued (job control); the child side of an exec failure is executed for real in a forked copy of the harness. One genuine defect is recorded, not repaired (known_findings.json: the SIGCHLD handler allocates memory).",
+   text="Seeded exploration of the relative order of child exit, SIGCHLD delivery (any eligible thread), handler execution and waitpid for 1..4 (quick) / 1..16 (thorough) concurrent managers running commands that exit 0, exit k, die by a signal or fail to exec; execute()'s outcome is compared to the planned fate for every command, plus reaping/descriptor conservation, deadlock (mutexes and the allocator lock re-entered by a signal handler) and memory-error detection; pids are recycled across the commands of a history in a third of the runs; children can be stopped and continued (job control); in a fifth of the runs the simulated process starts with SIGCHLD ignored (a child that terminates while it is ignored leaves nothing for waitpid); the child side of an exec failure is executed for real in a forked copy of the harness. One genuine defect is recorded, not repaired (known_findings.json: the SIGCHLD handler allocates memory).",
    note="Trusted: the simulated kernel (fork/waitpid/pipe/signal semantics modelled on Linux); the child side of createProcess is a state machine, not executed code. Uninitialised automatic variables are made deterministic with -ftrivial-auto-var-init in two adversarial flavours.",
    design="§3 C30"),
  "C52": dict(ready=True, level="exploration", engine="vsim-static",
    technique="deterministic simulation: real tfel-check sources (TFELCheck::execute, TestLauncher, PCLogger, ThreadPool, ProcessManager) under the seeded scheduler and simulated process table; verdict/log-block oracle against a sequential reference; happens-before race detection (annotation hook, and a variant with compiler-instrumented accesses and interposed ostream insertions)",
-   text="Seeded schedule exploration of the real tfel-check driver code on generated sets of .check files, -j 1..16: exit status must equal the plan-derived verdict and tfel-check.log must contain each check's block exactly once and uninterleaved.",
+   text="Seeded schedule exploration of the real tfel-check driver code on generated sets of .check files, -j 1..16: exit status must equal the plan-derived verdict and tfel-check.log must contain each check's block exactly once and uninterleaved; a third of the plans have per-directory tfel-check.config files, settings come from the command line.",
    note="Trusted: simulated kernel as for C30; child commands are simulated fates, not real programs.",
    design="§3 C52"),
  "C46": dict(ready=True, level="exploration", engine="procsim",
    technique="deterministic simulation of processes: real forked processes running MFrontLock.cxx from the tree (lock driver and the real mfront binary), every sem_* call and exit forwarded to a seeded simulator that owns the named semaphore objects, the clock of timed waits and the schedule; faults: kill at any request, EINTR or SIGTERM on a blocked wait, failing sem_open, failing invocations; holder-count invariant and every access of the real mfront to src/targets.lst checked against the lock",
-   text="Seeded exploration of histories of 2..8 mfront-like runs (sequential then concurrent, with kills at arbitrary points): at every step the number of processes inside a lock-protected section must be <= the initial value of the semaphore (1).",
+   text="Seeded exploration of histories of 2..8 mfront-like runs (sequential then concurrent, made from one or two working directories, with kills at arbitrary points; named semaphores are modelled per name, POSIX shared-memory objects are private to one history): at every step the number of processes inside a lock-protected section must be <= the initial value of the semaphore (1).",
    note="Trusted: the simulated named semaphore (POSIX semantics, persistent across process exits) and the forwarding shim.",
    design="§3 C46"),
  "C36": dict(ready=True, level="exploration", engine="preload",
    technique="deterministic simulation of the environment: real mfront under an LD_PRELOAD simulator (seeded clock with jumps, pid, readdir order, heap layout, environ order) across run histories; byte-identity oracle",
-   text="For sampled (input, interface) pairs the generated files must be byte-identical across seeded perturbations of every nondeterminism source mfront can observe and across run histories (fresh, repeated, after other inputs, after the same input with another interface, last of three inputs of one mfront invocation, after an input of a directory holding a name clash, with a keyword option on the command line, under seeded values of the ambient environment variables); a repeated generation must leave the whole directory unchanged.",
+   text="For sampled (input, interface) pairs the generated files must be byte-identical across seeded perturbations of every nondeterminism source mfront can observe and across run histories (fresh, repeated, after other inputs, after the same input with another interface, last of three inputs of one mfront invocation, after an input of a directory holding a name clash, with a keyword option on the command line, under seeded values of the ambient environment variables); four /verif-owned inputs with shapes the repository lacks (arrays of variables with bounds on single elements, one / two user defined tangent operators) are always in the sample, each generated after all the others in one invocation; a repeated generation must leave the whole directory unchanged.",
    note="Trusted: the list of intercepted sources is complete for what mfront reads (checked with strace/ltrace during design).",
    design="§3 C36"),
  "C47": dict(ready=True, level="fault_enumeration", engine="preload",
    technique="crash-point enumeration: real mfront under an LD_PRELOAD I/O layer, kill/ENOSPC injected at every I/O event of a chosen run inside seeded histories; union-model and crash-recovery oracle on src/targets.lst",
-   text="Fault-free histories are compared with a set-union reference model and write/read idempotence; for a crashing run every I/O event index x {kill before, kill after, torn write} is enumerated, and the following successful run must either report the damaged registry or keep every library registered before the crash. Corpus: material properties (c, cxx, octave, excel), behaviours (one with @MaterialLaw dependencies) and models; libraries, headers and specific targets are part of the union model; runs without interface and runs with a rejected second input; an in-memory tier checks write/read identity and merge inclusion on seeded descriptions.",
+   text="Fault-free histories are compared with a set-union reference model and write/read idempotence; for a crashing run every I/O event index x {kill before, kill after, torn write} is enumerated, and the following successful run must either report the damaged registry or keep every library registered before the crash. Corpus: material properties (c, cxx, octave, excel), behaviours (one with @MaterialLaw dependencies) and models; libraries, headers and specific targets are part of the union model; runs without interface, runs with a rejected second input and runs that define macros (-D); half of the runs that follow a crash are made with the warnings switched off; an in-memory tier checks write/read identity and merge inclusion on seeded descriptions.",
    note="Kill model (process death), not power loss: data for which write() returned is durable. Trusted: the small registry parser in the driver.",
    design="§3 C47"),
  "C40": dict(ready=True, level="fault_enumeration", engine="callback-fault",
    technique="fault enumeration at the behaviour-protocol seam: mock behaviour with a fault plan through the real Integrate.hxx / strain-measure wrappers, plus generated behaviours calling a fault-plan provider; bitwise snapshot oracle on s1",
-   text="Every (stage x failure mode x request class x hypothesis x strain measure x tangent flavour, valid and invalid selectors) combination is enumerated for the mock tier; after a call returning -1 the caller's s1 thermodynamic forces, internal state variables and energies must be bitwise unchanged.",
+   text="Every (stage x failure mode x request class x hypothesis x strain measure x tangent flavour, valid and invalid selectors) combination is enumerated for the mock tier; the generated tier calls four /verif-owned behaviours and one model (@DSL Model, generic interface: exceptions before / between / after its outputs, input outside its physical bounds) produced by the freshly built mfront; after a call returning -1 the caller's s1 thermodynamic forces, internal state variables and energies must be bitwise unchanged.",
    note="Trusted: the mock implements the interface the templates require; generated-tier behaviours are produced by the freshly built mfront.",
    design="§3 C40"),
  "C50": dict(ready=True, level="fault_enumeration", engine="preload",
    technique="fault injection at the behaviour seam of the real mtest binary (plan keyed by behaviour-call index) on .mtest and .ptest inputs, refinement oracle against a direct fault-free run over the accepted steps, reference model of the sub-stepping loop",
-   text="Failures, exceptions and time-step reductions are injected at chosen behaviour calls (incl. nested); the result file must agree, at every accepted time, with a fault-free run performed directly with the accepted steps, and the attempts logged by mtest must follow a reference model of the sub-stepping loop (time bookkeeping, per-interval rejection budget). A sixth of the plans drive PipeTest (several integration points, mandrel, a failure criterion with the StopComputation policy registered by a preloaded plugin).",
+   text="Failures, exceptions and time-step reductions are injected at chosen behaviour calls (incl. nested); the result file must agree, at every accepted time, with a fault-free run performed directly with the accepted steps, and the attempts logged by mtest must follow a reference model of the sub-stepping loop (time bookkeeping, per-interval rejection budget). A third of the plans have a varying temperature and a thermal strain computed by MTest. A sixth of the plans drive PipeTest (several integration points, mandrel, a failure criterion with the StopComputation policy registered by a preloaded plugin; a quarter of them on times that are no dyadic numbers).",
    note="Comparison within 100x the convergence criteria in general, bitwise on dyadic time grids (strict mode).",
    design="§3 C50"),
  "C08": dict(ready=True, level="fault_enumeration", engine="callback-fault",
    technique="fault enumeration at the residual-callback seam of the real solver templates (failure/NaN/inf at chosen evaluations), invariant over the recorded evaluation history, UBSan",
-   text="All subsets of <=3 faulty evaluations among the first iterMax+2 are enumerated per solver, size and system family; success must imply a fault-free, finite, criterion-meeting last evaluation at the returned unknowns; iter <= iterMax always (also for a second resolution on the same object, and on Rosenbrock's valley for every budget 1..60); after the last fault affine systems (four magnitudes, equations in every order) converge.",
+   text="All subsets of <=3 faulty evaluations among the first iterMax+2 are enumerated per solver, size and system family; success must imply a fault-free, finite, criterion-meeting last evaluation at the returned unknowns; iter <= iterMax always (also for a second resolution on the same object, and on Rosenbrock's valley for every budget 1..60); after the last fault affine systems (four magnitudes, equations in every order) converge. The Newton-Raphson solver is enumerated with its three kinds of workspace (default, views on a caller's buffer, heap vector / matrix), the last two also for N = 5 and 7.",
    note="Only the fault clauses of C08 are decided; 'Newton converges inside its basin' is covered only as bounded liveness after faults stop on affine systems.",
    design="§3 C08"),
  "C09": dict(ready=True, level="fault_enumeration", engine="callback-fault",
    technique="fault enumeration at the function/criterion callback seam of the real scalarNewtonRaphson (NaN/inf values, zero/NaN derivatives at chosen evaluations), invariant over the recorded call history",
-   text="Faults are enumerated over evaluation indices for a family of scalar functions with and without valid brackets; convergence claims, iteration budget and bracket confinement are checked on the call history.",
+   text="Faults (NaN of both signs, infinities, vanishing derivatives) are enumerated over evaluation indices for a family of scalar functions with and without valid brackets, four initial guesses (one of them the exact root), every budget incl. negative ones; convergence claims, iteration budget and bracket confinement are checked on the call history.",
    note="Only the fault clauses of C09 are decided.",
    design="§3 C09"),
 }
